@@ -19,7 +19,7 @@ from .. import cfg as cfgmod
 from .. import isa
 from ..core import REPO, AnalysisError, Ctx
 from ..rsfacts import RustProgram, expr_text, pat_text, walk
-from ..rules import key_of, rs_defs, rs_is_call, rs_is_mcall, rs_leaves
+from ..rules import key_of, rs_canon, rs_defs, rs_is_call, rs_is_mcall, rs_leaves
 
 LEVEL = "other"
 EXPLANATION = (
@@ -112,20 +112,32 @@ def determinism(ctx: Ctx, rs: RustProgram) -> None:
     ctx.need(len(loops) == 1, "run_for: the per-cycle poll loop was not found")
     it_txt = expr_text(loops[0]["iter"])
     n += 1
-    src = d.get(it_txt, [None])[0]
-    if not (loops[0]["iter"].get("k") == "path" and isinstance(src, dict) and "self.futures_queue.remove(" in expr_text(src)):
+    src_c = rs_canon(loops[0]["iter"], d)
+    if not (loops[0]["iter"].get("k") == "path" and "self.futures_queue.remove(" in src_c):
         ctx.violation("C18.1/fifo-order", key_of(rf.file, rf.qual, "for future in futures"), f"tasks of one cycle are iterated as `{it_txt}` (not the removed vector in insertion order)", rf.where)
     for c in walk(rf.body):
-        if c.get("k") == "mcall" and c["m"] in ("insert", "push_front", "swap_remove", "sort", "reverse", "rev", "pop") and "future" in expr_text(c):
+        if c.get("k") == "mcall" and c["m"] in ("insert", "push_front", "swap_remove", "sort", "reverse", "rev", "pop") and ("futures_queue" in rs_canon(c, d) or "poll(" in rs_canon(c, d)):
             n += 1
             ctx.violation("C18.1/fifo-order", key_of(rf.file, rf.qual, expr_text(c)[:60]), f"`{c['m']}` reorders same-cycle tasks", f"{rf.file}:{c['ln']}")
     # the earliest key is taken: keys().next()
-    nk = d.get("next_cycle", [None])[0]
+    # the cycle the clock is advanced to (and whose tasks are removed) is the smallest key
+    EARLIEST = ("(*self.futures_queue.keys().next().unwrap())", "*self.futures_queue.keys().next().unwrap()", "(*self.futures_queue.first_key_value().unwrap().0)")
+    cw0 = [a["r"] for a in walk(rf.body) if a.get("k") == "assign" and expr_text(a["l"]) == "self.clock"]
+    if not cw0:
+        # the clock may be advanced through a setter: a method of the driver that stores its parameter into self.clock
+        setters = {f_.name for f_ in rs.fns_in(DRV) if f_.body is not None and any(x.get("k") == "assign" and expr_text(x["l"]) == "self.clock" and expr_text(x["r"]) in f_.params() for x in walk(f_.body))}
+        cw0 = [c["args"][0] for c in walk(rf.body) if c.get("k") == "mcall" and c["m"] in setters and expr_text(c["recv"]) == "self" and c["args"]]
+    ctx.need(bool(cw0), "run_for: no clock update found")
+    nk_c = rs_canon(cw0[0], d)
+    nk = cw0[0]
     n += 1
-    if not (isinstance(nk, dict) and re.sub(r"\s", "", expr_text(nk)) in ("*self.futures_queue.keys().next().unwrap()",)):
-        ctx.violation("C18.1/earliest-first", key_of(rf.file, rf.qual, "next_cycle"), f"next_cycle is `{expr_text(nk) if isinstance(nk, dict) else nk}`, not the smallest queued wake cycle", rf.where)
+    if nk_c not in EARLIEST:
+        ctx.violation("C18.1/earliest-first", key_of(rf.file, rf.qual, "next_cycle"), f"the cycle run next is `{nk_c}`, not the smallest queued wake cycle", rf.where)
+    rm = [c for c in walk(rf.body) if rs_is_mcall(c, "remove", "self.futures_queue")]
+    if rm and rs_canon(rm[0]["args"][0], d).lstrip("&") not in EARLIEST:
+        ctx.violation("C18.1/earliest-first", key_of(rf.file, rf.qual, "removed bucket"), f"the bucket removed for polling is `{rs_canon(rm[0]['args'][0], d)}`, not the smallest queued wake cycle", rf.where)
     ctx.instance("C18.1/determinism", "banned nondeterminism sources, container types, container operations, same-cycle FIFO, earliest-key-first", n, 60)
-    ctx.sample({"futures_queue": fq, "events_queue": types.get("events_queue"), "poll_loop_iterates": it_txt, "next_cycle": expr_text(nk) if isinstance(nk, dict) else None})
+    ctx.sample({"futures_queue": fq, "events_queue": types.get("events_queue"), "poll_loop_iterates": it_txt, "next_cycle": nk_c})
 
 
 def _tl_sets(body: Any, name: str) -> list[dict]:
@@ -184,16 +196,17 @@ def seq_pairs(ctx: Ctx, rs: RustProgram) -> None:
         ctx.violation("C18.2/event-queued", key_of(rf.file, rf.qual, "events_queue.push_back"), "a taken event is not queued for delivery", rf.where)
     # the wake cycle of a pending task is read after its own poll and before the next reset: wake_cycle def uses NEXT_WAKE_CYCLE get
     d = rs_defs(rf.body)
-    wk = d.get("wake_cycle", [None])[0]
-    n += 1
-    if not (isinstance(wk, dict) and "NEXT_WAKE_CYCLE" in expr_text(wk) and "unwrap_or(self.clock.saturating_add(1))" in expr_text(wk)):
-        ctx.violation("C18.2/wake-source", key_of(rf.file, rf.qual, "wake_cycle"), f"a pending task is re-queued at `{expr_text(wk) if isinstance(wk, dict) else wk}` instead of its requested cycle (or clock+1)", rf.where)
     ent = [c for c in walk(rf.body) if rs_is_mcall(c, "entry", "self.futures_queue")]
+    wk_c = rs_canon(ent[0]["args"][0], d) if len(ent) == 1 else None
+    wk = ent[0]["args"][0] if len(ent) == 1 else None
     n += 1
-    if not (len(ent) == 1 and expr_text(ent[0]["args"][0]) == "wake_cycle"):
+    if not (wk_c and "NEXT_WAKE_CYCLE.with(|..|_c0.get())" in wk_c and "unwrap_or(self.clock.saturating_add(1))" in wk_c):
+        ctx.violation("C18.2/wake-source", key_of(rf.file, rf.qual, "wake_cycle"), f"a pending task is re-queued at `{wk_c}` instead of its requested cycle (or clock+1)", rf.where)
+    n += 1
+    if len(ent) != 1:
         ctx.violation("C18.2/wake-source", key_of(rf.file, rf.qual, "futures_queue.entry"), "a pending task is not re-queued under its wake cycle", rf.where)
     ctx.instance("C18.2/seq-pairs", "reset-before-poll, take-after-poll, publish-cycle-before-poll, event queued, requeue at requested cycle", n, 6)
-    ctx.sample({"polls": len(polls), "resets": len(resets), "takes": len(takes), "publishes": len(pubs), "clock_writes": len(clock_writes), "wake_cycle": expr_text(wk) if isinstance(wk, dict) else None})
+    ctx.sample({"polls": len(polls), "resets": len(resets), "takes": len(takes), "publishes": len(pubs), "clock_writes": len(clock_writes), "wake_cycle": wk_c})
 
 
 _MONO = re.compile(r"^(self\.clock|current_cycle|clock|next_cycle|next|wake_cycle|start_cycle)(\.saturating_add\([^()]*\))?$")
@@ -212,24 +225,35 @@ def monotone(ctx: Ctx, rs: RustProgram) -> None:
             if v == "None":
                 continue
             n += 1
-            m = re.fullmatch(r"Some\((.+)\)", v)
-            inner = m.group(1) if m else v
-            ok = bool(re.fullmatch(r"current_cycle\.saturating_add\(this\.cycles\)", inner))
-            cur = d.get("current_cycle", [None])[0]
-            ok = ok and isinstance(cur, dict) and expr_text(cur) == "current_cycle()"
+            setc = [x for x in walk(c["args"][0]["body"]) if rs_is_mcall(x, "set")][0]
+            vc = rs_canon(setc["args"][0], d)
+            # Some(<current cycle>.saturating_add(<the sleep's own cycle count>)) with the current cycle read by current_cycle()
+            ok = bool(re.fullmatch(r"Some\(\(current_cycle\(\)\)\.saturating_add\((\(self\.get_mut\(\)\)|self)\.cycles\)\)", vc))
             if not ok:
                 ctx.violation("C18.3/monotone", key_of(rel, fn.qual, f"NEXT_WAKE_CYCLE.set({v})"), f"wake cycle `{v}` is not `current cycle (+ non-negative sleep)`: a task could be woken in the past or at an unrelated time", f"{rel}:{c['ln']}")
-        # clock assignments
-        for a in walk(fn.body):
-            if a.get("k") == "assign" and expr_text(a["l"]) in ("self.clock", "driver.clock", "clock"):
+        # clock assignments (a setter's store of its own parameter is judged at the setter's call sites)
+        def _is_clock(l_: dict) -> bool:
+            if l_.get("k") == "field" and l_.get("name") == "clock":
+                return True
+            if l_.get("k") == "path":
+                ds_ = [v for v in d.get(l_["p"], []) if isinstance(v, dict)]
+                return bool(ds_) and expr_text(ds_[0]).replace(" ", "") == "current_cycle()"
+            return False
+        clock_stores = [a for a in walk(fn.body) if a.get("k") == "assign" and _is_clock(a["l"])]
+        clock_stores += [{"k": "assign", "l": {"k": "path", "p": "self.clock"}, "r": c["args"][0], "ln": c["ln"]} for c in walk(fn.body)
+                         if c.get("k") == "mcall" and expr_text(c["recv"]) == "self" and c["args"] and c["m"] in _clock_setters(rs)]
+        for a in clock_stores:
+            if True:
                 n += 1
                 r = expr_text(a["r"])
                 if fn.qual == "AsyncDriver::with_clock" or fn.qual == "AsyncDriver::new":
                     continue
+                if r in fn.params() and fn.name in _clock_setters(rs):
+                    continue
                 ok = False
-                if r == "next_cycle":
-                    nk = d.get("next_cycle", [None])[0]
-                    ok = isinstance(nk, dict) and "self.futures_queue.keys().next()" in expr_text(nk)
+                rc_ = rs_canon(a["r"], d)
+                if "self.futures_queue.keys().next()" in rc_ or "self.futures_queue.first_key_value()" in rc_:
+                    ok = True
                 elif fn.qual == "block_on":
                     ok = r.replace(" ", "") in ("ifnext<=clock{..}",) or a["r"].get("k") == "if"
                 if not ok:
@@ -238,8 +262,8 @@ def monotone(ctx: Ctx, rs: RustProgram) -> None:
         for c in walk(fn.body):
             if rs_is_mcall(c, "entry", "self.futures_queue"):
                 n += 1
-                k = expr_text(c["args"][0])
-                if k not in ("self.clock", "wake_cycle"):
+                k = rs_canon(c["args"][0], d)
+                if not (k == "self.clock" or ("NEXT_WAKE_CYCLE.with(" in k and "unwrap_or(self.clock.saturating_add(1))" in k)):
                     ctx.violation("C18.3/monotone", key_of(rel, fn.qual, f"entry({k})"), f"task queued under `{k}`: not the clock or a requested wake cycle", f"{rel}:{c['ln']}")
     # run_for loop only pops keys < target and the loop guard keeps clock < target: next_cycle >= target breaks before the clock write
     rf = rs.fn(DRV, "AsyncDriver::run_for")
@@ -247,10 +271,19 @@ def monotone(ctx: Ctx, rs: RustProgram) -> None:
     cw = [a for a in walk(rf.body) if a.get("k") == "assign" and expr_text(a["l"]) == "self.clock"]
     for a in cw:
         n += 1
-        gs = [(expr_text(x), pol) for x, pol, _o in g.guards_of(g.node_of(a)) if isinstance(x, dict)]
-        if ("next_cycle>=target_cycle", False) not in gs:
+        dd = rs_defs(rf.body)
+        gs = [(rs_canon(x, dd), pol) for x, pol, _o in g.guards_of(g.node_of(a)) if isinstance(x, dict)]
+        want_c = rs_canon(a["r"], dd)
+        # not(<the cycle the clock moves to> >= <start + budget>) established on the path to the write
+        budget_ok = any((not pol) and t.startswith(want_c + ">=") and ".saturating_add(max_cycles)" in t for t, pol in gs) or any(pol and t.startswith(want_c + "<") and ".saturating_add(max_cycles)" in t for t, pol in gs)
+        if not budget_ok:
             ctx.violation("C18.3/budget", key_of(rel, rf.qual, "self.clock = next_cycle:budget"), "the clock can be advanced to a wake cycle at or beyond the budget target", f"{rel}:{a['ln']}", guards=gs)
     ctx.instance("C18.3/monotone", "wake-cycle values, clock assignments, queue keys are forward-only; clock stays inside the budget", n, 5)
+
+
+def _clock_setters(rs: RustProgram) -> set[str]:
+    return {f_.name for f_ in rs.fns_in(DRV) if f_.body is not None and f_.name not in ("new", "with_clock")
+            and any(x.get("k") == "assign" and expr_text(x["l"]) == "self.clock" and expr_text(x["r"]) in f_.params() for x in walk(f_.body))}
 
 
 def cpu_task(ctx: Ctx, rs: RustProgram) -> None:
@@ -285,9 +318,10 @@ def cpu_task(ctx: Ctx, rs: RustProgram) -> None:
     # the runner spawns the task on a driver whose clock starts at the runtime's cycle count
     rn = rs.fn("core/src/async_runtime.rs", "AsyncRuntimeRunner::new")
     n += 1
-    txt = " ".join(s.get("src", "") for s in rn.body["stmts"]) + expr_text(rn.body["stmts"][-1].get("e", {}))
-    txt = txt.replace(" ", "")
-    if "cycle_count()" not in txt or "with_clock(clock)" not in txt:
+    rd_ = rs_defs(rn.body)
+    wc = [c for c in walk(rn.body) if c.get("k") == "call" and expr_text(c["f"]).endswith("with_clock") and c["args"]]
+    seeded = [rs_canon(c["args"][0], rd_) for c in wc]
+    if not (len(wc) == 1 and "cycle_count()" in seeded[0]):
         ctx.violation("C18.4/cpu-task", key_of(rn.file, rn.qual, "clock-seed"), "the async runner does not seed the driver clock from the runtime's cycle count", rn.where)
     ctx.instance("C18.4/cpu-task", "CPU task = sleep one cycle then one synchronous step, once per instruction; driver clock seeded from the runtime", n, 3)
     ctx.sample({"cpu_task_body": [(k, v) for _l, k, v in seq]})
